@@ -84,4 +84,14 @@ PROPS = {
         ],
         trusted=['T3 as C01', 'T4 as C01'],
     ),
+    'C16': dict(
+        vx_units=['server'], kx=[],
+        design_ref='DESIGN.md section 5, C16',
+        not_covered=[
+            'exactly-once reassembly across chunks and resumption offsets: Server::do_readdir (closure capturing &mut cursor), PseudoFs::do_readdir, passthrough do_readdir (getdents64, lseek, cookie cache) and the VFS wrappers are NOT verified; only the reply-assembly step add_dirent is',
+            'readdirplus lookup-reference accounting for delivered entries (passthrough, syscalls)',
+            'omission of "." and "..", non-zero continuation offsets, the final empty reply',
+        ],
+        trusted=['T3 as C01', 'T4 abstract Writer (a split cursor only buffers)'],
+    ),
 }
